@@ -24,14 +24,22 @@ struct Sched {
     segs: Vec<(usize, usize)>, // (thread, remaining yield points)
     cursor: usize,
     done: [bool; 2],
+    progress: u64,   // bumped at every yield point / completion
+    abandoned: bool, // the schedule could not be followed: the thread whose turn it was is blocked (e.g. on a lock the parked thread holds)
 }
 type Baton = Arc<(Mutex<Sched>, Condvar)>;
+
+/// A parked thread whose partner makes no progress for this long concludes that the partner is blocked on something the
+/// parked thread holds (a lock taken inside the library): the forced order is infeasible, so both run freely from here on.
+/// Blocking is not a violation; the outputs are still compared with the sequential reference.
+const STALL: std::time::Duration = std::time::Duration::from_millis(1500);
 
 fn yield_point(b: &Baton, me: usize) {
     let (m, cv) = &**b;
     let mut s = m.lock().unwrap();
+    s.progress += 1;
     loop {
-        if s.cursor >= s.segs.len() {
+        if s.abandoned || s.cursor >= s.segs.len() {
             return;
         }
         let cur = s.cursor;
@@ -45,13 +53,21 @@ fn yield_point(b: &Baton, me: usize) {
             s.segs[cur].1 -= 1;
             return;
         }
-        s = cv.wait(s).unwrap();
+        let seen = s.progress;
+        let (g, to) = cv.wait_timeout(s, STALL).unwrap();
+        s = g;
+        if to.timed_out() && s.progress == seen && !s.done[who] {
+            s.abandoned = true;
+            cv.notify_all();
+            return;
+        }
     }
 }
 fn finished(b: &Baton, me: usize) {
     let (m, cv) = &**b;
     let mut s = m.lock().unwrap();
     s.done[me] = true;
+    s.progress += 1;
     cv.notify_all();
 }
 
@@ -128,7 +144,7 @@ fn forced_schedules<T: Real + Elem>(ctx: &mut Ctx, pl: &Planned<T>, given: &[Vec
     }
     for (si, segs) in schedules.iter().enumerate() {
         ctx.case(format!("forced {} {} {} {} #{}", pl.n, T::ELEM, dir_name(pl.dir), pl.iid, si), true);
-        let baton: Baton = Arc::new((Mutex::new(Sched { segs: segs.clone(), cursor: 0, done: [false, false] }), Condvar::new()));
+        let baton: Baton = Arc::new((Mutex::new(Sched { segs: segs.clone(), cursor: 0, done: [false, false], progress: 0, abandoned: false }), Condvar::new()));
         let fft = pl.fft.clone();
         let adv = pl.adv;
         let results: Vec<(Option<String>, Vec<Complex<T>>)> = std::thread::scope(|s| {
@@ -151,7 +167,7 @@ fn forced_schedules<T: Real + Elem>(ctx: &mut Ctx, pl: &Planned<T>, given: &[Vec
         });
         // both calls were in flight at the same time: two CallBegin, then two CallEnd
         let sched_desc: Vec<Value> = segs.iter().map(|(t, s)| json!([if *t == 0 { "A" } else { "B" }, if *s == usize::MAX { -1 } else { *s as i64 }])).collect();
-        let c1 = ctx.call_begin(pl.iid, ca.entry, &ca.x, if ca.entry.two_buffers() { ca.x.len() } else { 0 }, adv[ca.entry.scratch_index()], json!({"thread": "A", "schedule": sched_desc}));
+        let c1 = ctx.call_begin(pl.iid, ca.entry, &ca.x, if ca.entry.two_buffers() { ca.x.len() } else { 0 }, adv[ca.entry.scratch_index()], json!({"thread": "A", "schedule": sched_desc, "abandoned": baton.0.lock().unwrap().abandoned}));
         let c2 = ctx.call_begin(pl.iid, cb.entry, &cb.x, if cb.entry.two_buffers() { cb.x.len() } else { 0 }, adv[cb.entry.scratch_index()], json!({"thread": "B"}));
         for (cid, (panic, res), key) in [(c1, &results[0], &key_a), (c2, &results[1], &key_b)] {
             let obs = if panic.is_none() { vec![json!({"kind": "hash"})] } else { vec![] };
@@ -184,7 +200,7 @@ fn cold_start<T: Real + Elem>(ctx: &mut Ctx, kind: Kind, n: usize, d: rustfft::F
             None => return,
         };
         ctx.case(format!("cold {} {} {} #{}", kind.name(), T::ELEM, n, si), true);
-        let baton: Baton = Arc::new((Mutex::new(Sched { segs: segs.clone(), cursor: 0, done: [false, false] }), Condvar::new()));
+        let baton: Baton = Arc::new((Mutex::new(Sched { segs: segs.clone(), cursor: 0, done: [false, false], progress: 0, abandoned: false }), Condvar::new()));
         let fft = pl.fft.clone();
         let adv = pl.adv;
         let results: Vec<(Option<String>, Vec<Complex<T>>)> = std::thread::scope(|s| {
@@ -211,11 +227,28 @@ fn cold_start<T: Real + Elem>(ctx: &mut Ctx, kind: Kind, n: usize, d: rustfft::F
         if emit_ref(ctx, &pl, &ca, &key_a).is_none() || emit_ref(ctx, &pl, &cb, &key_b).is_none() {
             continue;
         }
-        let c1 = ctx.call_begin(pl.iid, ca.entry, &ca.x, if ca.entry.two_buffers() { ca.x.len() } else { 0 }, adv[ca.entry.scratch_index()], json!({"thread": "A", "cold": true}));
+        let abandoned = baton.0.lock().unwrap().abandoned;
+        let c1 = ctx.call_begin(pl.iid, ca.entry, &ca.x, if ca.entry.two_buffers() { ca.x.len() } else { 0 }, adv[ca.entry.scratch_index()], json!({"thread": "A", "cold": true, "abandoned": abandoned}));
         let c2 = ctx.call_begin(pl.iid, cb.entry, &cb.x, if cb.entry.two_buffers() { cb.x.len() } else { 0 }, adv[cb.entry.scratch_index()], json!({"thread": "B", "cold": true}));
         for (cid, (panic, res), key) in [(c1, &results[0], &key_a), (c2, &results[1], &key_b)] {
             let obs = if panic.is_none() { vec![json!({"kind": "hash"})] } else { vec![] };
             ctx.call_end(cid, panic, obs, "check", key, hash2(res));
+        }
+        // second opinion: isolated calls on a TWIN instance (fresh planner, never called concurrently) - an instance that the
+        // overlapping first calls damaged for good would agree with its own later reference calls
+        if let Some((pid2, mut planner2)) = ctx.new_planner::<T>(kind) {
+            if let Some(pl2) = ctx.plan(pid2, &mut planner2, n, d, false) {
+                let key_ta = format!("cold-twin:{}:{}:A", pl.iid, si);
+                let key_tb = format!("cold-twin:{}:{}:B", pl.iid, si);
+                if emit_ref(ctx, &pl2, &ca, &key_ta).is_some() && emit_ref(ctx, &pl2, &cb, &key_tb).is_some() {
+                    let c1 = ctx.call_begin(pl.iid, ca.entry, &ca.x, if ca.entry.two_buffers() { ca.x.len() } else { 0 }, adv[ca.entry.scratch_index()], json!({"thread": "A", "cold": true, "vs": "twin"}));
+                    let c2 = ctx.call_begin(pl.iid, cb.entry, &cb.x, if cb.entry.two_buffers() { cb.x.len() } else { 0 }, adv[cb.entry.scratch_index()], json!({"thread": "B", "cold": true, "vs": "twin"}));
+                    for (cid, (panic, res), key) in [(c1, &results[0], &key_ta), (c2, &results[1], &key_tb)] {
+                        let obs = if panic.is_none() { vec![json!({"kind": "hash"})] } else { vec![] };
+                        ctx.call_end(cid, panic, obs, "check", key, hash2(res));
+                    }
+                }
+            }
         }
     }
     // burst: 8 threads released together on a fresh instance
